@@ -1,6 +1,7 @@
 package props
 
 import (
+	"go/ast"
 	"fmt"
 
 	"verif/internal/an"
@@ -134,4 +135,62 @@ func runC19(c *Ctx) {
 		r.Check("C19-Y4", "node.KVSnapInfo.RemoteSyncedStates is an exported (serialised) field of the snapshot info", "", ok, "")
 	}
 	_ = fmt.Sprint
+}
+
+func init() {
+	old := registry["C19"].Run
+	registry["C19"].Run = func(c *Ctx) { old(c); runC19Y56(c) }
+}
+
+func runC19Y56(c *Ctx) {
+	r := c.R
+	r.Clause("C19-Y5", "the sender drops a batch as 'already replayed' only on its last entry")
+	if u := c.unit("C19-Y5", "node.(*logSyncerSM).handlerRaftLogs"); u != nil {
+		is := an.AnyCall().Where("IsNewer2", func(u *an.Unit, s *an.Site) bool { return len(an.CalleeName(s)) > 9 && an.CalleeName(s)[len(an.CalleeName(s))-9:] == ".IsNewer2" })
+		r.ArgValues("C19-Y5", u, is, 0, []string{"last.OrigTerm"}, 1)
+		r.ArgValues("C19-Y5", u, is, 1, []string{"last.OrigIndex"}, 1)
+		// `last` is always the most recently collected request
+		for _, s := range u.Match(an.LocalStore("last")) {
+			if s.RHS == nil {
+				continue // the declaration
+			}
+			v := u.C.Term(s.RHS)
+			r.Check("C19-Y5", u.Name+": `last` follows the request just added to the batch", u.Pos(s.Pos), v == "req" || v == "req_2" || v == "req_3" || len(v) >= 3 && v[:3] == "req", "assigned "+v)
+		}
+	}
+	r.Clause("C19-Y6", "the 'ignored remote apply' sentinel travels unwrapped: producers return it as is, consumers compare by identity")
+	n := 0
+	for _, pkg := range c.P.Pkgs {
+		if pkg.PkgPath != "github.com/youzan/ZanRedisDB/node" {
+			continue
+		}
+		for _, f := range pkg.Syntax {
+			var stack []ast.Node
+			ast.Inspect(f, func(nd ast.Node) bool {
+				if nd == nil {
+					stack = stack[:len(stack)-1]
+					return true
+				}
+				if id, ok := nd.(*ast.Ident); ok && id.Name == "errIgnoredRemoteApply" && pkg.TypesInfo.Uses[id] != nil {
+					n++
+					ok := false
+					if len(stack) > 0 {
+						switch p := stack[len(stack)-1].(type) {
+						case *ast.ReturnStmt, *ast.AssignStmt, *ast.ValueSpec:
+							ok = true
+						case *ast.BinaryExpr:
+							ok = p.Op.String() == "==" || p.Op.String() == "!="
+						case *ast.CaseClause:
+							ok = true
+						}
+					}
+					r.Check("C19-Y6", "use of errIgnoredRemoteApply is a plain return/assignment or an identity comparison", c.P.Pos(id.Pos()), ok,
+						"wrapping the sentinel (fmt.Errorf %w, errors.Wrap) breaks the identity comparison in postprocessRemoteApply: a failed remote apply would advance the synced position")
+				}
+				stack = append(stack, nd)
+				return true
+			})
+		}
+	}
+	r.Min("C19-Y6", n, 2, "uses of errIgnoredRemoteApply")
 }
